@@ -77,11 +77,13 @@ class Scenario:
         self.mk = env.factory(self.prod)
         self.cells[1] = self.mk(1)
         self.nev = 0
+        self.nevt = {}        # t -> events logged by thread t
 
     # ---- log ----------------------------------------------------------------------------------
     def log(self, k, t, op="-", c=0, ok=True, res=NIL):
         with _out_lock:
             self.nev += 1
+            self.nevt[t] = self.nevt.get(t, 0) + 1
             out("E " + json.dumps({"k": k, "t": t, "op": op, "c": c, "ok": ok, "res": res}, separators=(",", ":")))
         self.last = time.monotonic()
 
@@ -179,8 +181,18 @@ class Scenario:
         self.set_state(t, "done")
 
     # ---- the controller ---------------------------------------------------------------------------
-    def settle(self, hb):
-        """wait until every thread is idle / parked / done, or has been silent for the grace period"""
+    def settle(self, hb, woken=None):
+        """wait until every thread is idle / parked / done, or has been silent for the grace period.
+        woken = (t, n): the thread just started / released has to log its n-th event first (its `call` or
+        `resume`), so that a slow machine does not make it look blocked before it has even been scheduled"""
+        if woken is not None:
+            t, n = woken
+            t0 = time.monotonic()
+            while self.nevt.get(t, 0) < n and time.monotonic() - t0 < 10.0:
+                with self.cv:
+                    self.cv.wait(0.002)
+                hb()
+            self.last = time.monotonic()
         while True:
             with self.cv:
                 busy = [t for t, s in self.state.items() if s == "running"]
@@ -214,24 +226,27 @@ class Scenario:
         skipped = 0
 
         def decide(a, t):
+            """-> None (not applicable now) or (t, number of events thread t will have logged once it is under way)"""
             with self.cv:
                 s = self.state.get(t)
+            n = self.nevt.get(t, 0) + 1
             if a == "go" and s == "idle":
                 self.last = time.monotonic()
                 self.set_state(t, "running")
                 self.go[t].set()
-                return True
+                return (t, n)
             if a == "res" and s == "parked":
                 self.last = time.monotonic()
                 self.set_state(t, "running")
                 self.park_ev[t].set()
-                return True
-            return False
+                return (t, n)
+            return None
 
         for d in sc["hist"]:
-            if not decide(d["a"], d["t"]):
+            w = decide(d["a"], d["t"])
+            if w is None:
                 skipped += 1
-            self.settle(hb)
+            self.settle(hb, w)
         # let everything finish: release parked producers, start remaining calls, lowest thread first
         t0 = time.monotonic()
         while True:
@@ -239,7 +254,7 @@ class Scenario:
                 st = dict(self.state)
             if all(s == "done" for s in st.values()):
                 break
-            acted = False
+            acted = None
             for t in sorted(st):
                 if st[t] == "parked":
                     acted = decide("res", t)
@@ -249,7 +264,7 @@ class Scenario:
                     break
             if acted:
                 t0 = time.monotonic()
-                self.settle(hb)
+                self.settle(hb, acted)
                 continue
             # nothing to start or release: threads are inside calls (possibly waiting for each other)
             with self.cv:
